@@ -412,10 +412,15 @@ def construct(ex, cls: str, pos, kw, st: State) -> SV:
 # ---------------------------------------------------------------------------------------------------
 def bind_args(ex, c: Contract, pos, kw, st: State):
     names = list(c.params)
-    if len(pos) > len(names):
-        raise Unsupported('too many args for ' + c.key)
     args = {}
-    for n, v in zip(names, pos):
+    # a class-method contract: the implicit `cls` parameter is not among the positional arguments of the call
+    cls_params = [n for n in names if c.params[n].kind == 'cls']
+    for n in cls_params:
+        args[n] = SV('cls', py=c.params[n].cls)
+    pnames = [n for n in names if n not in cls_params]
+    if len(pos) > len(pnames):
+        raise Unsupported('too many args for ' + c.key)
+    for n, v in zip(pnames, pos):
         args[n] = v
     for k, v in kw.items():
         if k not in c.params or k in args:
@@ -453,6 +458,9 @@ def bind_args(ex, c: Contract, pos, kw, st: State):
     for n in names:
         ty = c.params[n]
         v = args[n]
+        if ty.kind == 'cls':
+            out[n] = v
+            continue
         out[n] = st.name_sv(adapt(ex, v, ty, st, 'argument %s of %s' % (n, c.short)))
     return out
 
